@@ -33,6 +33,8 @@ FIXED_DOCS = [
     '<r>x<a/>y<a>z</a><!--1--><!--2--><?p1 a?><?p2 b?></r>',
     '<r xmlns="d" xmlns:p="u"><a k="1">t<b/></a><x xmlns=""><a/></x><p:a/></r>',
     '<r xmlns="u" xmlns:p="u"><a k="1" p:k="2"/><p:a k=""/></r>',
+    # the default namespace is also bound to a prefix: no-namespace and default-namespace attributes (class j)
+    '<r xmlns="u" xmlns:p="u"><a p:k="1"/><a k="1" p:k="2"/><b p:k=""/><c xmlns=""><a p:k="1"/></c></r>',
     # a default namespace with un-namespaced islands: what an un-prefixed name addresses depends on `namespaces`
     '<r xmlns="d" xmlns:p="u"><a k="1"/><n xmlns=""><a/><b k="1"><a k="2"/></b></n><b><a/><c xmlns=""><a k="1"/></c></b></r>',
 ]
@@ -116,7 +118,9 @@ def gen_pred(rng, depth=0, wild=True):
         return rng.choice([
             "@k!='1'", "@j!=''", "@k=''", "@k=@j", "@j=@k", "@k!=@j", "@k<2", "@k>='1'", "@k<=@j", "@k>1.5" if False else "@k>1",
             "@k=1", "@k!=2", "position()='1'", "'2'=2", "'1'<@k", "@k<'10'", "not(@k)", "boolean(@j)", "not(@j)",
-            "@k=2 or @j", "position()<@k", "last()=@k", "(1=1)=(@k='1')", "'x'!=(1=2)", "@k>=-1" if False else "@k>=0",
+            "@k=2 or @j", "position()<@k", "last()=@k", "(1=1)=(@k='1')", "'x'!=(1=2)", "@k>=0",
+            "@k=(1=1)", "@j!=(1=2)", "(1=1)=@k", "@k<(1=1)", "(1=2)>=@j", "position()>(@k=@j)",
+            "contains(position(),'1')", "starts-with(1,'1')", "contains(@k,1)", "starts-with(@k=1,'t')", "contains(last(),position())",
         ])
     return rng.choice([
         "last()", "position()",                                   # (a)
@@ -126,8 +130,7 @@ def gen_pred(rng, depth=0, wild=True):
         "@k=''", "@k=@j", "@j=@k", "@k!=@j",                      # (e)
         "@k<2", "@k>='1'",                                        # (f)
         "text()='t'", "text()=''",                                # (i)
-        "@k=(1=1)", "@j!=(1=2)", "(1=1)=@k",                      # (o)
-        "contains(position(),'1')", "starts-with(1,'1')",         # (n)
+        "concat(1,'a')='1a'", "concat(@k,position()=1)='1true'",  # concat: agrees, outside the proven subset
         "@p:k='1'", "@q:k",                                       # (j) / unbound prefix
     ])
 
@@ -242,10 +245,7 @@ def features(t):
         if top and ty(e) not in ("bool", "num", "str"):
             f.add("a")
         if k in ("attrval", "hasattr"):
-            if e[1] is not None:
-                f.add("j")
-        if k in ("attrval", "val"):
-            f.add("m")                      # decided dynamically in Coq; a feature only for attribution
+            f.add("j")      # prefixed: finds the plain attribute; un-prefixed: finds {d}l (badd57c); decided in Coq per candidate
         if k == "op":
             o, l, r = e[1], e[2], e[3]
             tl, tr = ty(l), ty(r)
@@ -255,15 +255,11 @@ def features(t):
             else:
                 if "text" in (tl, tr):
                     f.add("i")
-                if {tl, tr} == {"attr", "bool"}:
-                    f.add("o")
             walk(l)
             walk(r)
         if k == "fn":
             if e[1] == "text":
                 f.add("i")
-            if e[1] in ("contains", "starts-with", "concat") and any(ty(a) in ("num", "bool") for a in e[2]):
-                f.add("n")
             for a in e[2]:
                 walk(a)
     for p in t[1]:
